@@ -249,7 +249,7 @@ def explore(d, env=None, lang="yaql", form=0, tok="task", rng=None, inputs=None)
     bud0 = {"pause": env.get("pause", 0), "resume": 0, "cancel": env.get("cancel", 0),
             "persist": env.get("persist", 0), "rerun": env.get("rerun", 0)}
     r0 = Real(d, lang=lang, form=form, tok=tok, inputs=inputs)
-    r0.use_delayed = bool(env.get("delayed"))
+    r0.use_delayed = env.get("delayed") or False        # True: delayed tasks report `delayed` first; "all": every action reports `requested` first
     steps = apply_choice(r0, ["boot"], env.get("lazy"))
     n = tree.add_steps(0, steps, ["boot"])
     seen = set()
@@ -295,7 +295,7 @@ def run_schedule(d, schedule, lang="yaql", form=0, tok="task", lazy=False, input
     """Replay a list of choices (a `--replay` file, or a behaviour emitted by TLC) on a fresh
     conductor; returns the Real with its recorded steps."""
     r = Real(d, lang=lang, form=form, tok=tok, inputs=inputs)
-    r.use_delayed = bool(delayed)
+    r.use_delayed = delayed or False
     for ch in schedule:
         apply_choice(r, ch, lazy)
     return r
